@@ -14,7 +14,7 @@ SPEC = {
         {"kind": "SYN", "type": _T, "eval": "check_syntax", "per_shard": 40},
     ],
     "classes": {1: "lone-cr-line"},
-    "n_quick": 700, "n_thorough": 30000,
+    "n_quick": 700, "n_thorough": 2800,
     "level": "proof",
     "what_violation": "reported line/column differs from the line/column of the token",
     "rule": ("executable and type-system documents printed token by token with random ignored text (LF, CRLF, lone CR, tab, "
